@@ -96,7 +96,7 @@ Proof.
   - reflexivity.
   - apply IH.
   - f_equal. unfold prune_step. destruct (bool_decide (x ∈ ins)), (bool_decide (y ∈ ins)); try reflexivity.
-    destruct t as [rows ti]; unfold set; cbn. f_equal. set_solver.
+    destruct t as [rows ti]; unfold set; cbn. f_equal. apply delete_commute.
   - rewrite IH1. apply IH2.
 Qed.
 
